@@ -40,7 +40,7 @@ def base_axioms():
 
 def feasible(pc, extra=()) -> bool:
     """May pc /\\ extra hold?  `unknown` counts as feasible (sound: the path is explored)."""
-    s = _mk_solver(RLIMIT_FEAS, 5000)
+    s = _mk_solver(RLIMIT_FEAS, 1500)
     s.add(*base_axioms())
     s.add(*pc)
     s.add(*extra)
